@@ -342,6 +342,23 @@ func (r *runner) exec(i int, s step) bool {
 			return false
 		}
 		r.rec(fmt.Sprintf("NConnect 2 %d", r.creationCanon(w.creations[w.inc])), eOK)
+	case "dialadd":
+		// LinkNode / MonitorNode as the FIRST contact: process.LinkNode dials (Network().GetNode) and inserts the
+		// relation; it returns as soon as the dialing side's handshake is complete, a moment before the accepting
+		// node has registered the connection.  The next step (a fault) follows at once.
+		var err error
+		was := w.connected()
+		done := w.onObserver(s.O, func(o *observer) { err = doAdd(o, s.Mon, tkNode, w.bname) })
+		if !waitOr(done, opWait) {
+			r.fail("step %d: dialadd did not return within %v: hang", i, opWait)
+			return false
+		}
+		if !was && w.connected() {
+			r.rec(fmt.Sprintf("NConnect 2 %d", r.creationCanon(w.creations[w.inc])), eOK)
+		}
+		e := errClass(err)
+		r.rec(fmt.Sprintf("NAdd %s %s (TNode 2) 0 %s", util.B(s.Mon), obsCoq(s.O), ansCoq(e)), e)
+		r.res.stats[fmt.Sprintf("dialadd-result-%d", e)]++
 	case "add", "del":
 		id, tcoq, cr := r.ident(s.TK, s.Inc, s.Slot)
 		stale := r.isStale(s.TK, s.Inc)
@@ -770,6 +787,18 @@ func genCalls(r *rand.Rand) ncase {
 	return c
 }
 
+// the peer stops right after the first contact: the dialing side's GetNode has returned, the accepting side
+// may not have registered the connection yet (network.accept registers it after the handshake)
+func genStopNow(r *rand.Rand) ncase {
+	c := ncase{Kind: "stopnow", Nobs: 2, Ntargets: 1, Tags: []string{"down", "stopnow"}}
+	c.Steps = append(c.Steps, step{Op: "dialadd", O: 0, Mon: r.Intn(2) == 0})
+	if r.Intn(3) == 0 {
+		c.Steps = append(c.Steps, step{Op: "dialadd", O: 1, Mon: r.Intn(2) == 0})
+	}
+	c.Steps = append(c.Steps, step{Op: "fault", Fault: []string{"stop", "stopforce"}[r.Intn(2)]})
+	return c
+}
+
 // a link / unlink request or its answer is held back in the proxy, then every link is cut
 func genInflight(r *rand.Rand) ncase {
 	c := ncase{Kind: "inflight", Nobs: 2, Ntargets: 2, Proxy: true, Tags: []string{"inflight"}}
@@ -804,11 +833,30 @@ func generate(n int, known map[string]bool, stream int64) []ncase {
 		c.Steps = append(c.Steps, step{Op: "fault", Fault: f})
 		cases = append(cases, c)
 	}
+	for _, f := range []string{"stop", "stopforce"} {
+		cases = append(cases, ncase{Kind: "stopnow", Nobs: 2, Ntargets: 1, Tags: []string{"down", "stopnow", "corpus"},
+			Steps: []step{{Op: "dialadd", O: 0, Mon: f == "stop"}, {Op: "fault", Fault: f}}})
+	}
 	if known["restart-same-second"] {
 		cases = append(cases, genRestart(r, true))
 	}
+	if only := os.Getenv("NETFAIL_KIND"); only != "" { // development aid: one kind only
+		cases = nil
+		for len(cases) < n {
+			switch only {
+			case "stopnow":
+				cases = append(cases, genStopNow(r))
+			case "restart":
+				cases = append(cases, genRestart(r, false))
+			default:
+				cases = append(cases, genDown(r))
+			}
+		}
+	}
 	for len(cases) < n {
-		switch k := r.Intn(20); {
+		switch k := r.Intn(22); {
+		case k >= 20:
+			cases = append(cases, genStopNow(r))
 		case k < 8:
 			cases = append(cases, genDown(r))
 		case k < 12:
